@@ -214,11 +214,51 @@ def run(ck):
     # direct oracle (4): an element that raises on ONE step.  "One element per sweep step": whatever the exception class, the
     # node must fail (the run raises); it must never return a collection / probe list with fewer elements than steps.
     n_or += failing_step_oracle(ck, rng, 30 if thorough else 10)
+    # direct oracle (5): a swept element that keeps per-instance state.  Element i is the wrapped processor applied to the
+    # step's parameters: every step gets what a fresh application gives, whatever ran in the steps before.
+    n_or += stateful_element_oracle(ck, rng, 8 if thorough else 3)
     # linear ranges over binary64 (Model/Linspace.v, PrimFloat): the sequence the implementation materialises, the
     # published <var>_values and the elements, bit for bit
     n_or += linspace_oracle(ck, rng, 1500 if thorough else 400)
     ck.notes["direct_oracle_runs"] = n_or
     ck.cov["trusted_base"] = c01.TRUSTED
+
+
+def stateful_element_oracle(ck, rng, n):
+    from semantiva.context_processors import ContextType
+    from semantiva.pipeline import Payload, Pipeline
+    from semantiva.registry.processor_registry import ProcessorRegistry
+    ProcessorRegistry.register_modules(["harness.lib.components"])
+    runs = 0
+    for trial in range(n):
+        fs = [float(rng.randint(1, 5)) for _ in range(rng.randint(2, 5))]
+        x = float(rng.randint(1, 4))
+        for kind, proc in (("operation", "VerifStatefulScaleOperation"), ("probe", "VerifStatefulScaleProbe")):
+            sw = {"parameters": {"factor": "f"}, "variables": {"f": {"values": list(fs)}}}
+            node = {"processor": proc, "derive": {"parameter_sweep": sw}}
+            if kind == "operation":
+                sw["collection"] = "FloatDataCollection"
+            else:
+                node["context_key"] = "out"
+            pipe = Pipeline([{"processor": "FloatValueDataSource", "parameters": {"value": x}}, node])
+            for rep in (0, 1):        # the same Pipeline object run twice: the second run starts afresh too
+                try:
+                    res = pipe.process(Payload(None, ContextType({})))
+                except Exception as ex:  # noqa
+                    ck.corr_problem("stateful-element oracle: the sweep did not run", repr(ex)[:300])
+                    return runs
+                runs += 1
+                if kind == "operation":
+                    got, want = [e.data for e in res.data], [x * f for f in fs]
+                else:
+                    got, want = [list(e) for e in res.context.get_value("out")], [[x * f, 0] for f in fs]
+                if got != want:
+                    ck.fail_input("C03:element-depends-on-earlier-steps:" + kind,
+                                  "a swept %s that keeps per-instance state: elements %s, the wrapped processor applied to each step's parameters gives %s "
+                                  "(run %d of one Pipeline object)" % (kind, got, want, rep + 1),
+                                  {"processor": proc, "factors": fs, "input": x, "run": rep + 1, "got": got, "want": want})
+                    break
+    return runs
 
 
 LIN_HEADER = """From Coq Require Import List ZArith Bool PrimFloat. Import ListNotations.
